@@ -88,7 +88,9 @@ func vC15Routes(t *testing.T, out *vEmitter) {
 	methods := []string{"GET", "POST", "OPTIONS", "DELETE", "get", "PUT"}
 	paths := []string{"/", "/public", "/public/x", "/private", "/private/public", "/admin", "/admin/x", "/static/a.css", "/x/a.css", "/a.js",
 		"/health", "/api/health", "/api/v1", "/open", "/open/", "/hook/abc", "/hook/ABC", "/tmp/x", "/a=b", "/x", "/%70ublic", "/public%2Fx",
-		"//public", "/private/../public", "/x;/public", "/x%3F/public$", "/x%zz"}
+		"//public", "/private/../public", "/x;/public", "/x%3F/public$", "/x%zz",
+		// an encoded '?' or '#' is part of the path, not the start of a query or fragment
+		"/public%3Fx", "/public%3f", "/open%3F/x", "/hook/abc%3Fz", "/a=b%3F", "/static%23/x", "/open%23", "/x/a.css%3Fv=1", "/admin%3F/../public"}
 	queries := []string{"", "x=1", "x=/public", "/public", "next=/static/a.css", "a.css", "u=/health&v=/open", "x=/a.js#/public", "/admin", "=^/private", "x=%2Fpublic"}
 	if !vThorough() {
 		queries = queries[:8]
@@ -385,9 +387,14 @@ func vC15ClientIP(t *testing.T, out *vEmitter) {
 			netsSX := vL(vL(vIPN(net.ParseIP("10.0.0.0")), vI(104)), vL(vIPN(net.ParseIP("2001:db8::")), vI(32)), vL(vIPN(net.ParseIP("192.0.2.77")), vI(128)))
 			for _, remote := range []string{"192.0.2.10:40000", "192.0.2.77:1", "10.9.9.9:5", "[2001:db8::9]:7", "@", "10.9.9.9"} {
 				for _, other := range headers {
-					for _, v := range values {
+					for _, v := range append(append([]string(nil), values...), "L:8.8.8.8|10.1.2.3", "L:10.1.2.3|8.8.8.8", "L:|10.1.2.3", "L:8.8.8.8|::ffff:10.1.2.3", "L:garbage|10.1.2.3") {
 						var hs [][2]string
-						if v != "" {
+						if strings.HasPrefix(v, "L:") {
+							// the header sent on several lines: the first line is the one that counts (http.Header.Get)
+							for _, ln := range strings.Split(v[2:], "|") {
+								hs = append(hs, [2]string{other, ln})
+							}
+						} else if v != "" {
 							hs = append(hs, [2]string{other, v})
 						}
 						req, err := vRawRequest(vBuildRaw("GET", "/", "app.example.com", hs, ""))
